@@ -480,6 +480,8 @@ val forallb : ('a1 -> bool) -> 'a1 list -> bool
 
 val filter : ('a1 -> bool) -> 'a1 list -> 'a1 list
 
+val find : ('a1 -> bool) -> 'a1 list -> 'a1 option
+
 val firstn : nat -> 'a1 list -> 'a1 list
 
 val skipn : nat -> 'a1 list -> 'a1 list
@@ -489,6 +491,8 @@ val seq : nat -> nat -> nat list
 val repeat : 'a1 -> nat -> 'a1 list
 
 val eqb0 : byte -> byte -> bool
+
+val to_nat0 : byte -> nat
 
 val to_N0 : byte -> n
 
@@ -699,15 +703,21 @@ val fid_approx : n
 
 val fid_extensible : n
 
+val default_filter_choices : n list
+
 val aid_simple : n
 
 val aid_sasl : n
+
+val default_auth_choices : n list
 
 val oid_paged : byte list
 
 val oid_show_deleted : byte list
 
 val oid_show_deactivated : byte list
+
+val default_control_choices : n list
 
 val oid_notice_of_disconnection : byte list
 
@@ -1262,6 +1272,38 @@ val version3 : z
 
 val step : nat -> sess -> call -> sess * outcome
 
+type rkind =
+| RControl
+| RFilter
+| RAuth
+
+val rkind_eqb : rkind -> rkind -> bool
+
+type rid = n list
+
+val rid_eqb : rid -> rid -> bool
+
+type rentry = { r_kind : rkind; r_id : rid; r_class : n list }
+
+type registry = rentry list
+
+val bytes_id : byte list -> rid
+
+val control_oid0 : n -> rid
+
+val reg_init : registry
+
+val matches_entry : rkind -> rid -> rentry -> bool
+
+val reg_find : rkind -> rid -> registry -> rentry option
+
+val reg_add : rkind -> rid -> n list -> registry -> registry res
+
+val reg_run :
+  ((rkind * rid) * n list) list -> registry -> bool list * registry
+
+val reg_decodes : rkind -> rid -> registry -> n list option
+
 type ferr =
 | FSyn of z * z
 | FCrash of crash
@@ -1622,6 +1664,14 @@ val s_snapshot : sess -> sexp
 val budget : nat
 
 val run_trace : sess -> call list -> sexp list
+
+val g_rkind : sexp -> rkind option
+
+val g_rid : sexp -> rid option
+
+val g_regop : sexp -> ((rkind * rid) * n list) option
+
+val g_regq : sexp -> (rkind * rid) option
 
 val run_msg : z -> sexp list -> sexp option
 
